@@ -48,8 +48,10 @@ def _string_constants(fn):
     return out
 
 
-def ctx_table(cls, desc):
-    """Tabulate cls.header_name_to_field_name_with_context.  Candidate headers: every string
+def ctx_table(cls, desc, probe_strip=True):
+    """probe_strip=False (harness only, after the probe has refused): the tables without the verdict on stripping
+    (sw_strip = None), so that the oracle can still run on a tree the translator refuses.
+    Tabulate cls.header_name_to_field_name_with_context.  Candidate headers: every string
     constant of the function's source, every field name and header name of the model, the
     documented short headers.  A header on which the function raises KeyError with an empty
     row is the row-dependent one; the KeyError names the column it reads; that column is then
@@ -83,7 +85,7 @@ def ctx_table(cls, desc):
         if r != h:
             basic[h] = r
     if not switch:
-        return dict(basic=basic, sw_header="", sw_column="", sw_table={}), cands
+        return dict(basic=basic, sw_header="", sw_column="", sw_table={}, sw_strip=False), cands
     if len(switch) != 1:
         _refuse(f"more than one row-dependent header: {switch!r}")
     sw_header = switch[0]
@@ -108,7 +110,54 @@ def ctx_table(cls, desc):
         r = fn(h, {sw_column: some})
         if r != basic.get(h, h):
             _refuse(f"header {h!r} is re-keyed differently depending on the row")
-    return dict(basic=basic, sw_header=sw_header, sw_column=sw_column, sw_table=table), cands
+    sw_strip = _probe_strip(cls, fn, sw_header, sw_column, table) if probe_strip else None
+    return dict(basic=basic, sw_header=sw_header, sw_column=sw_column, sw_table=table, sw_strip=sw_strip), cands
+
+
+# str.strip() whitespace (Base/PyStr.v: is_ws)
+PY_WS = [chr(c) for c in list(range(0x9, 0xE)) + list(range(0x1C, 0x21)) + [0x85, 0xA0, 0x1680] + list(range(0x2000, 0x200B))
+         + [0x2028, 0x2029, 0x202F, 0x205F, 0x3000]]
+
+
+def _probe_strip(cls, fn, sw_header, sw_column, table):
+    """Is the row-type cell looked up RAW or STRIPPED (as RowParser reads the cell itself)?  Probed on the function:
+    every str.strip() whitespace character before / after / around every row type of the table.  All probes must
+    agree (all found under the unpadded key: stripped; all KeyError: raw); any other normalisation (case, inner
+    blanks, non-whitespace padding accepted) is outside the model."""
+    assert all(c.strip() == "" for c in PY_WS) and len(PY_WS) == 29
+    verdicts = set()
+    keys = list(table)
+    pads = [(w, "") for w in PY_WS] + [("", w) for w in PY_WS] + [(w, w) for w in PY_WS] + [(" \n\t", "\r  "), ("\u3000 ", "\x1f\x85")]
+    for i, (pre, post) in enumerate(pads):
+        for rt in (keys if i < 4 else [keys[i % len(keys)]]):
+            if rt.strip() != rt or rt == "":
+                _refuse(f"row type {rt!r} of the table is blank or carries whitespace itself")
+            try:
+                r = fn(sw_header, {sw_column: pre + rt + post})
+            except KeyError:
+                verdicts.add("raw")
+                continue
+            except Exception as e:
+                _refuse(f"header_name_to_field_name_with_context on a padded {sw_column!r} cell raised {e!r}")
+            if r != table[rt]:
+                _refuse(f"padded row type {pre + rt + post!r} re-keys {sw_header!r} to {r!r}, unpadded to {table[rt]!r}")
+            verdicts.add("stripped")
+    if len(verdicts) != 1:
+        _refuse(f"{cls.__name__}.header_name_to_field_name_with_context strips some whitespace paddings of the "
+                f"{sw_column!r} cell and not others")
+    # nothing else is normalised away
+    for rt in keys:
+        for bad in ("x" + rt, rt + "x", rt.upper() if rt.upper() != rt else rt + "_", rt[:1] + " " + rt[1:], "\u200b" + rt):
+            if bad in table:
+                continue
+            try:
+                r = fn(sw_header, {sw_column: bad})
+            except KeyError:
+                continue
+            except Exception as e:
+                _refuse(f"header_name_to_field_name_with_context({sw_header!r}, {{{sw_column!r}: {bad!r}}}) raised {e!r}")
+            _refuse(f"row type {bad!r} is accepted (-> {r!r}): the lookup normalises more than str.strip()")
+    return verdicts == {"stripped"}
 
 
 def tables_row(out, notes):
@@ -137,6 +186,8 @@ def tables_row(out, notes):
     notes.append("flow row model: " + ", ".join(f"{n}:{_short(t)}" for (n, t, _) in desc[2]))
     notes.append("ctx basic: " + repr(ctx["basic"]))
     notes.append("ctx switch: " + repr((ctx["sw_header"], ctx["sw_column"], ctx["sw_table"])))
+    notes.append(f"ctx sw_strip={ctx['sw_strip']}: PROBED — every str.strip() whitespace character before/after/around "
+                 "the row-type cell (all looked up under the unpadded key: True; all KeyError: False; mixed: refused)")
 
     # what to_row_data_sheet passes (effective values of the two local sets)
     try:
